@@ -10,12 +10,16 @@ meta = json.load(open(meta_p)) if os.path.exists(meta_p) else {}
 dirty = subprocess.run(["git", "-C", "/repo", "status", "--porcelain", "--untracked-files=no"], capture_output=True, text=True).stdout.strip()
 if dirty:
     sys.exit("/repo is dirty, refusing")
+ev_p = os.path.join("/verif/evidence", prop + ".json")
+ev_saved = open(ev_p).read() if os.path.exists(ev_p) else None   # evidence must describe the unchanged tree: put it back afterwards
 subprocess.run(["git", "-C", "/repo", "apply", os.path.join(d, "patch.diff")], check=True)
 t0 = time.time()
 try:
     p = subprocess.run(["./check", prop, "--tier", tier], cwd="/verif", capture_output=True, text=True)
 finally:
     subprocess.run(["git", "-C", "/repo", "checkout", "--", "."], check=True)
+    if ev_saved is not None:
+        open(ev_p, "w").write(ev_saved)
 out = p.stdout + p.stderr
 viol = sorted(set(re.findall(r"^VIOLATION property=\S+ replay=\S+ role=(\S+)", out, re.M)))
 inconc = re.findall(r"^INCONCLUSIVE (.*)$", out, re.M)
